@@ -11,35 +11,37 @@ open Hl7 Hl7.G
 
 def declGrp (rows : List SRow) (g : String) (grows : List SRow) : Prop := ∃ mn mx, SRow.grp g mn mx grows ∈ rows
 
+variable (P : Pe.Seg → List SRow → Prop)
+
 mutual
 def GSound : List SRow → Node → Prop
-  | _, .seg _ => True
+  | rows, .seg s => P s rows
   | rows, .grp g grows kids => declGrp rows g grows ∧ GSoundL grows kids
 def GSoundL : List SRow → List Node → Prop
   | _, [] => True
   | rows, k :: ks => GSound rows k ∧ GSoundL rows ks
 end
 
-theorem GSoundL_append (rows : List SRow) (a b : List Node) : GSoundL rows (a ++ b) ↔ GSoundL rows a ∧ GSoundL rows b := by
+theorem GSoundL_append (rows : List SRow) (a b : List Node) : GSoundL P rows (a ++ b) ↔ GSoundL P rows a ∧ GSoundL P rows b := by
   induction a with
   | nil => simp [GSoundL]
   | cons x xs ih => simp [GSoundL, ih, and_assoc]
 
 def framesOk (top : List SRow) : List Frame → Prop
   | [] => True
-  | [f] => declGrp top f.name f.rows ∧ GSoundL f.rows f.kids
-  | f :: g :: fs => declGrp g.rows f.name f.rows ∧ GSoundL f.rows f.kids ∧ framesOk top (g :: fs)
+  | [f] => declGrp top f.name f.rows ∧ GSoundL P f.rows f.kids
+  | f :: g :: fs => declGrp g.rows f.name f.rows ∧ GSoundL P f.rows f.kids ∧ framesOk top (g :: fs)
 
-def St.Ok (s : St) : Prop := GSoundL s.topRows s.topKids ∧ framesOk s.topRows s.frames
+def St.Ok (s : St) : Prop := GSoundL P s.topRows s.topKids ∧ framesOk P s.topRows s.frames
 
 /-- the rows a new frame must be declared in -/
 theorem framesOk_cons (top : List SRow) (f : Frame) (fs : List Frame) :
-    framesOk top (f :: fs) ↔ declGrp (match fs with | g :: _ => g.rows | [] => top) f.name f.rows ∧ GSoundL f.rows f.kids ∧ framesOk top fs := by
+    framesOk P top (f :: fs) ↔ declGrp (match fs with | g :: _ => g.rows | [] => top) f.name f.rows ∧ GSoundL P f.rows f.kids ∧ framesOk P top fs := by
   cases fs with
   | nil => simp [framesOk]
   | cons g gs => simp [framesOk]
 
-theorem ok_closeTop (s : St) (h : s.Ok) : (closeTop s).Ok ∧ (closeTop s).topRows = s.topRows := by
+theorem ok_closeTop (s : St) (h : St.Ok P s) : St.Ok P (closeTop s) ∧ (closeTop s).topRows = s.topRows := by
   unfold closeTop
   cases hf : s.frames with
   | nil => exact ⟨h, rfl⟩
@@ -68,14 +70,14 @@ theorem curRows_eq (s : St) : s.curRows = (match s.frames with | g :: _ => g.row
   unfold St.curRows; cases s.frames <;> rfl
 
 theorem ok_openFrame (T : Tables) (strict : Bool) (s s' : St) (g : String) (rows : List SRow)
-    (ho : openFrame T strict s g rows = .ok s') (h : s.Ok) (hd : declGrp s.curRows g rows) :
-    s'.Ok ∧ s'.topRows = s.topRows ∧ s'.curRows = rows := by
+    (ho : openFrame T strict s g rows = .ok s') (h : St.Ok P s) (hd : declGrp s.curRows g rows) :
+    St.Ok P s' ∧ s'.topRows = s.topRows ∧ s'.curRows = rows := by
   unfold openFrame at ho
   cases hc : structCheck rows with
   | error e => simp [hc, bind, Except.bind] at ho
   | ok u =>
     simp only [hc, bind, Except.bind] at ho
-    have key : ∀ s1 : St, s1 = { s with frames := ⟨g, rows, []⟩ :: s.frames } → s1.Ok ∧ s1.topRows = s.topRows ∧ s1.curRows = rows := by
+    have key : ∀ s1 : St, s1 = { s with frames := ⟨g, rows, []⟩ :: s.frames } → St.Ok P s1 ∧ s1.topRows = s.topRows ∧ s1.curRows = rows := by
       intro s1 e; subst e
       refine ⟨⟨h.1, ?_⟩, rfl, rfl⟩
       simp only
@@ -99,7 +101,7 @@ theorem ok_openFrame (T : Tables) (strict : Bool) (s s' : St) (g : String) (rows
         simpa [hf] using this
 
 theorem ok_addSeg (T : Tables) (strict : Bool) (s s' : St) (sg : Pe.Seg)
-    (ha : addNode T strict s (.seg sg) = .ok s') (h : s.Ok) : s'.Ok ∧ s'.topRows = s.topRows := by
+    (ha : addNode T strict s (.seg sg) = .ok s') (h : St.Ok P s) (hP : P sg s.curRows) : St.Ok P s' ∧ s'.topRows = s.topRows := by
   unfold addNode at ha
   cases hf : s.frames with
   | nil =>
@@ -108,7 +110,9 @@ theorem ok_addSeg (T : Tables) (strict : Bool) (s s' : St) (sg : Pe.Seg)
     refine ⟨⟨?_, by simpa [hf] using h.2⟩, rfl⟩
     simp only
     rw [GSoundL_append]
-    exact ⟨h.1, by simp [GSoundL, GSound]⟩
+    have : s.curRows = s.topRows := by unfold St.curRows; simp [hf]
+    rw [this] at hP
+    exact ⟨h.1, by simp [GSoundL, GSound, hP]⟩
   | cons f fs =>
     simp only [hf] at ha
     cases hadm : admitChild T strict false (some f.name) (some f.rows) f.kids (.seg sg) with
@@ -124,26 +128,42 @@ theorem ok_addSeg (T : Tables) (strict : Bool) (s s' : St) (sg : Pe.Seg)
       refine ⟨hfr.1, ?_, hfr.2.2⟩
       simp only
       rw [GSoundL_append]
-      exact ⟨hfr.2.1, by simp [GSoundL, GSound]⟩
+      have : s.curRows = f.rows := by unfold St.curRows; simp [hf]
+      rw [this] at hP
+      exact ⟨hfr.2.1, by simp [GSoundL, GSound, hP]⟩
 
-/-- a path found by `_get_segment_reference`: each group is a declared group row of the one before -/
-def pathOk : List SRow → List (String × List SRow) → Prop
-  | _, [] => True
-  | rows, (g, grows) :: p => declGrp rows g grows ∧ pathOk grows p
+/-- a path found by `_get_segment_reference`: each group is a declared group row of the one before, and the last
+    level has the segment as a direct row -/
+def pathOk (name : String) : List SRow → List (String × List SRow) → Prop
+  | rows, [] => direct name rows = some true
+  | rows, (g, grows) :: p => declGrp rows g grows ∧ pathOk name grows p
 
 theorem declGrp_cons (r : SRow) (rs : List SRow) (g : String) (grows : List SRow) (h : declGrp rs g grows) : declGrp (r :: rs) g grows := by
   obtain ⟨mn, mx, hm⟩ := h
   exact ⟨mn, mx, List.mem_cons_of_mem _ hm⟩
 
+/-- what the tail search returns is never the empty path, and starts at a group declared in the rows searched -/
+def tailOk (name : String) (rs : List SRow) (p : List (String × List SRow)) : Prop :=
+  match p with
+  | [] => False
+  | (g, grows) :: q => declGrp rs g grows ∧ pathOk name grows q
+
 mutual
-theorem findInRows_sound (name : String) : ∀ (rows : List SRow) (p : List (String × List SRow)), findInRows name rows = some p → pathOk rows p
+theorem findInRows_sound (name : String) : ∀ (rows : List SRow) (p : List (String × List SRow)), findInRows name rows = some p → pathOk name rows p
   | [], p, h => by simp [findInRows] at h
   | r :: rs, p, h => by
     unfold findInRows at h
     split at h
-    · cases h; simp [pathOk]
+    · next hd => cases h; exact hd
     · cases h
-    · cases r with
+    · have lift : tailOk name rs p → pathOk name (r :: rs) p := by
+        intro ht
+        cases p with
+        | nil => exact absurd ht (by simp [tailOk])
+        | cons x xs =>
+          obtain ⟨g, grows⟩ := x
+          exact ⟨declGrp_cons _ _ _ _ ht.1, ht.2⟩
+      cases r with
       | grp g mn mx grows =>
         simp only at h
         cases hin : findInRows name grows with
@@ -153,23 +173,14 @@ theorem findInRows_sound (name : String) : ∀ (rows : List SRow) (p : List (Str
           exact ⟨⟨mn, mx, List.mem_cons_self⟩, findInRows_sound name grows q hin⟩
         | none =>
           simp only [hin] at h
-          have := findGroupsTail_sound name rs p h
-          cases p with
-          | nil => simp [pathOk]
-          | cons x xs => exact ⟨declGrp_cons _ _ _ _ this.1, this.2⟩
+          exact lift (findGroupsTail_sound name rs p h)
       | seg n mn mx hr =>
         simp only at h
-        have := findGroupsTail_sound name rs p h
-        cases p with
-        | nil => simp [pathOk]
-        | cons x xs => exact ⟨declGrp_cons _ _ _ _ this.1, this.2⟩
+        exact lift (findGroupsTail_sound name rs p h)
       | other n =>
         simp only at h
-        have := findGroupsTail_sound name rs p h
-        cases p with
-        | nil => simp [pathOk]
-        | cons x xs => exact ⟨declGrp_cons _ _ _ _ this.1, this.2⟩
-theorem findGroupsTail_sound (name : String) : ∀ (rs : List SRow) (p : List (String × List SRow)), findGroupsTail name rs = some p → pathOk rs p
+        exact lift (findGroupsTail_sound name rs p h)
+theorem findGroupsTail_sound (name : String) : ∀ (rs : List SRow) (p : List (String × List SRow)), findGroupsTail name rs = some p → tailOk name rs p
   | [], p, h => by simp [findGroupsTail] at h
   | .grp g mn mx grows :: rs, p, h => by
     unfold findGroupsTail at h
@@ -182,26 +193,28 @@ theorem findGroupsTail_sound (name : String) : ∀ (rs : List SRow) (p : List (S
       simp only [hin] at h
       have := findGroupsTail_sound name rs p h
       cases p with
-      | nil => simp [pathOk]
-      | cons x xs => exact ⟨declGrp_cons _ _ _ _ this.1, this.2⟩
+      | nil => exact absurd this (by simp [tailOk])
+      | cons x xs => obtain ⟨g', grows'⟩ := x; exact ⟨declGrp_cons _ _ _ _ this.1, this.2⟩
   | .seg n mn mx hr :: rs, p, h => by
     unfold findGroupsTail at h
     have := findGroupsTail_sound name rs p h
     cases p with
-    | nil => simp [pathOk]
-    | cons x xs => exact ⟨declGrp_cons _ _ _ _ this.1, this.2⟩
+    | nil => exact absurd this (by simp [tailOk])
+    | cons x xs => obtain ⟨g', grows'⟩ := x; exact ⟨declGrp_cons _ _ _ _ this.1, this.2⟩
   | .other n :: rs, p, h => by
     unfold findGroupsTail at h
     have := findGroupsTail_sound name rs p h
     cases p with
-    | nil => simp [pathOk]
-    | cons x xs => exact ⟨declGrp_cons _ _ _ _ this.1, this.2⟩
+    | nil => exact absurd this (by simp [tailOk])
+    | cons x xs => obtain ⟨g', grows'⟩ := x; exact ⟨declGrp_cons _ _ _ _ this.1, this.2⟩
 end
 
-theorem ok_openPath (T : Tables) (strict : Bool) (p : List (String × List SRow)) :
-    ∀ (s s' : St), openPath T strict s p = .ok s' → s.Ok → pathOk s.curRows p → s'.Ok ∧ s'.topRows = s.topRows := by
+/-- opening a found path: the invariant is kept and the innermost open level has the segment as a direct row -/
+theorem ok_openPath (T : Tables) (strict : Bool) (name : String) (p : List (String × List SRow)) :
+    ∀ (s s' : St), openPath T strict s p = .ok s' → St.Ok P s → pathOk name s.curRows p →
+      St.Ok P s' ∧ s'.topRows = s.topRows ∧ direct name s'.curRows = some true := by
   induction p with
-  | nil => intro s s' h hok _; simp [openPath, pure, Except.pure] at h; cases h; exact ⟨hok, rfl⟩
+  | nil => intro s s' h hok hp; simp [openPath, pure, Except.pure] at h; cases h; exact ⟨hok, rfl, hp⟩
   | cons x xs ih =>
     intro s s' h hok hp
     obtain ⟨g, rows⟩ := x
@@ -211,12 +224,15 @@ theorem ok_openPath (T : Tables) (strict : Bool) (p : List (String × List SRow)
     | error e => simp [ho] at h
     | ok s1 =>
       simp only [ho] at h
-      obtain ⟨h1, h2, h3⟩ := ok_openFrame T strict s s1 g rows ho hok hp.1
+      obtain ⟨h1, h2, h3⟩ := ok_openFrame P T strict s s1 g rows ho hok hp.1
       have := ih s1 s' h h1 (by rw [h3]; exact hp.2)
-      exact ⟨this.1, by rw [this.2, h2]⟩
+      exact ⟨this.1, by rw [this.2.1, h2], this.2.2⟩
 
-theorem place_ok (T : Tables) (strict : Bool) (name : String) (mk : Unit → R Pe.Seg) (fuel : Nat) :
-    ∀ (s s' : St), place T strict name mk fuel s = .ok s' → s.Ok → s'.Ok ∧ s'.topRows = s.topRows := by
+/-- every step of the group finder keeps the invariant; `hmk`: the segment built for this line satisfies `P` wherever
+    the line's name is a direct segment row -/
+theorem place_ok (T : Tables) (strict : Bool) (name : String) (mk : Unit → R Pe.Seg)
+    (hmk : ∀ sg, mk () = .ok sg → ∀ rows, direct name rows = some true → P sg rows) (fuel : Nat) :
+    ∀ (s s' : St), place T strict name mk fuel s = .ok s' → St.Ok P s → St.Ok P s' ∧ s'.topRows = s.topRows := by
   induction fuel with
   | zero => intro s s' h hok; simp [place, pure, Except.pure] at h; cases h; exact ⟨hok, rfl⟩
   | succ fuel ih =>
@@ -225,15 +241,17 @@ theorem place_ok (T : Tables) (strict : Bool) (name : String) (mk : Unit → R P
     split at h
     · split at h
       · simp [pure, Except.pure] at h; cases h; exact ⟨hok, rfl⟩
-      · obtain ⟨hc, ht⟩ := ok_closeTop s hok
+      · obtain ⟨hc, ht⟩ := ok_closeTop P s hok
         have := ih (closeTop s) s' h hc
         exact ⟨this.1, by rw [this.2, ht]⟩
-    · split at h
+    · next hfound =>
+      have hdir : direct name s.curRows = some true := findInRows_sound name s.curRows [] hfound
+      split at h
       · split at h
         · next f fs hfr hrep =>
           simp only [bind, Except.bind] at h
-          obtain ⟨hc, ht⟩ := ok_closeTop s hok
-          -- the closed group is declared in what is now the current level
+          obtain ⟨hc, ht⟩ := ok_closeTop P s hok
+          have hcur : s.curRows = f.rows := by unfold St.curRows; simp [hfr]
           have hd : declGrp (closeTop s).curRows f.name f.rows := by
             have hf := hok.2
             rw [hfr] at hf
@@ -248,40 +266,40 @@ theorem place_ok (T : Tables) (strict : Bool) (name : String) (mk : Unit → R P
           | error e => simp [ho] at h
           | ok s2 =>
             simp only [ho] at h
-            obtain ⟨h1, h2, _⟩ := ok_openFrame T strict _ s2 _ _ ho hc hd
+            obtain ⟨h1, h2, h3⟩ := ok_openFrame P T strict _ s2 _ _ ho hc hd
             cases hm : mk () with
             | error e => simp [hm] at h
             | ok sg =>
               simp only [hm] at h
-              have := ok_addSeg T strict s2 s' sg h h1
+              have := ok_addSeg P T strict s2 s' sg h h1 (hmk sg hm _ (by rw [h3, ← hcur]; exact hdir))
               exact ⟨this.1, by rw [this.2, h2, ht]⟩
         · simp only [bind, Except.bind] at h
           cases hm : mk () with
           | error e => simp [hm] at h
           | ok sg =>
             simp only [hm] at h
-            exact ok_addSeg T strict s s' sg h hok
+            exact ok_addSeg P T strict s s' sg h hok (hmk sg hm _ hdir)
       · simp only [bind, Except.bind] at h
         cases hm : mk () with
         | error e => simp [hm] at h
         | ok sg =>
           simp only [hm] at h
-          exact ok_addSeg T strict s s' sg h hok
+          exact ok_addSeg P T strict s s' sg h hok (hmk sg hm _ hdir)
     · next p hne hp =>
       simp only [bind, Except.bind] at h
       cases ho : openPath T strict s p with
       | error e => simp [ho] at h
       | ok s1 =>
         simp only [ho] at h
-        obtain ⟨h1, h2⟩ := ok_openPath T strict p s s1 ho hok (findInRows_sound name s.curRows p hp)
+        obtain ⟨h1, h2, h3⟩ := ok_openPath P T strict name p s s1 ho hok (findInRows_sound name s.curRows p hp)
         cases hm : mk () with
         | error e => simp [hm] at h
         | ok sg =>
           simp only [hm] at h
-          have := ok_addSeg T strict s1 s' sg h h1
+          have := ok_addSeg P T strict s1 s' sg h h1 (hmk sg hm _ h3)
           exact ⟨this.1, by rw [this.2, h2]⟩
 
-theorem finish_ok (fuel : Nat) (s : St) (hok : s.Ok) (hlen : s.frames.length ≤ fuel) : GSoundL s.topRows (finish fuel s) := by
+theorem finish_ok (fuel : Nat) (s : St) (hok : St.Ok P s) (hlen : s.frames.length ≤ fuel) : GSoundL P s.topRows (finish fuel s) := by
   induction fuel generalizing s with
   | zero => unfold finish; exact hok.1
   | succ fuel ih =>
@@ -290,7 +308,7 @@ theorem finish_ok (fuel : Nat) (s : St) (hok : s.Ok) (hlen : s.frames.length ≤
     | nil => exact hok.1
     | cons f fs =>
       simp only
-      obtain ⟨hc, ht⟩ := ok_closeTop s hok
+      obtain ⟨hc, ht⟩ := ok_closeTop P s hok
       have hl : (closeTop s).frames.length ≤ fuel := by
         unfold closeTop
         simp only [hf]
